@@ -275,6 +275,9 @@ pub enum MultiProofVerificationError {
     PathsOutOfOrder,
     /// Extra siblings were provided.
     TooManySiblings,
+    /// The multi-proof is structurally malformed: a terminal depth, the relation between two
+    /// terminal paths or the number of siblings is inconsistent.
+    Malformed,
 }
 
 #[derive(Debug, Clone)]
@@ -424,6 +427,9 @@ pub fn verify<H: NodeHasher>(
     let mut verified_bisections = Vec::new();
     for i in 0..multi_proof.paths.len() {
         let path = &multi_proof.paths[i];
+        if path.depth > path.terminal.path().len() {
+            return Err(MultiProofVerificationError::Malformed);
+        }
         if i > 0 {
             if path.terminal.path() <= multi_proof.paths[i - 1].terminal.path() {
                 return Err(MultiProofVerificationError::PathsOutOfOrder);
@@ -479,7 +485,11 @@ fn verify_range<H: NodeHasher>(
         // at a terminal node, 'siblings' will contain all unique
         // nodes, hash them up, and return that
         let terminal_path = &paths[0];
-        let unique_len = terminal_path.depth - start_depth;
+        let unique_len = terminal_path
+            .depth
+            .checked_sub(start_depth)
+            .filter(|unique_len| *unique_len <= siblings.len())
+            .ok_or(MultiProofVerificationError::Malformed)?;
 
         let node = hash_path::<H>(
             terminal_path.terminal.node::<H>(),
@@ -508,7 +518,13 @@ fn verify_range<H: NodeHasher>(
     );
 
     let common_len = start_depth + common_bits;
-    // TODO: if `common_len` == 256 the multi-proof is malformed. error
+    // if one terminal path is a prefix of (or equal to) the other, or there are not enough
+    // siblings for the common part, the multi-proof is malformed.
+    if common_len >= core::cmp::min(start_path.terminal.path().len(), end_path.terminal.path().len())
+        || common_bits > siblings.len()
+    {
+        return Err(MultiProofVerificationError::Malformed);
+    }
 
     let uncommon_start_len = common_len + 1;
 
